@@ -161,6 +161,8 @@ def fresh_child(fn, arg, mods=LIB_MODULES):
     """Run fn(arg) in a forked child whose library modules were re-imported; fn must return something JSON-able.
     Returns {'ok': value} or {'err': 'Type: message @ where'}.  All library calls made by ONE fn(arg) share the child's
     module state; nothing leaks back into the calling worker."""
+    for name in mods:  # first import (slow: pandas, sympy) happens once in the caller, the child only re-executes the modules
+        importlib.import_module(name)
     rd, wr = os.pipe()
     pid = os.fork()
     if pid == 0:
